@@ -141,7 +141,14 @@ def f_real(a, b):
     return 0.25 * O.lev(a, b) + 0.125 * abs(len(a) - len(b))
 
 
-FUNCS = {"lev": f_lev, "asym": f_asym, "kw": f_kw, "real": f_real, "default": None}
+def f_mixed(a, b):
+    """int 0 for identical strings, non-integer floats otherwise (as metrics with an early `return 0` do)"""
+    if a == b:
+        return 0
+    return 0.5 * O.lev(a, b) + 0.25
+
+
+FUNCS = {"lev": f_lev, "asym": f_asym, "kw": f_kw, "real": f_real, "mixed": f_mixed, "default": None}
 
 
 def check_functional(case, rec):
@@ -154,7 +161,7 @@ def check_functional(case, rec):
     else:
         ref = (lambda a, b: O.lev(a, b)) if f is None else (lambda a, b: f(a, b, **kw))
     m = len(A)
-    rec.note(case, m >= 3 and (fname in ("asym", "kw", "real")), [fname, case["dtype"], "kwargs" if kw else "no_kwargs"])
+    rec.note(case, m >= 3 and (fname in ("asym", "kw", "real", "mixed")), [fname, case["dtype"], "kwargs" if kw else "no_kwargs"])
     dtype = {"uint8": np.uint8, "int64": np.int64, "float64": np.float64, "default": None}[case["dtype"]]
     args = {}
     if f is not None:
@@ -233,10 +240,12 @@ def metric_case(draw, tier="quick"):
 def functional_case(draw, tier="quick"):
     A = draw(string_list(max_n=8, long_ok=False))
     B = draw(string_list(max_n=5, long_ok=False))
-    fname = draw(st.sampled_from(["default", "lev", "asym", "kw", "kw", "real"]))
+    fname = draw(st.sampled_from(["default", "lev", "asym", "kw", "kw", "real", "mixed"]))
+    if fname == "mixed" and A:
+        B = [A[0]] + list(B)           # the first pair evaluated is a pair of identical strings
     case = {"A": A, "B": B, "func": fname, "dtype": draw(st.sampled_from(["default", "uint8", "int64", "float64"])),
             "container": draw(st.sampled_from(["list", "tuple", "ndarray", "series_str"]))}
-    if fname == "real":
+    if fname in ("real", "mixed"):
         case["dtype"] = "float64"
     if fname == "kw" and draw(st.booleans()):
         case["kwargs"] = {"scale": draw(st.integers(1, 5)), "offset": draw(st.integers(0, 9))}
